@@ -33,6 +33,17 @@ func (o *objectGoMapReflect) strToKey(name string, throw bool) reflect.Value {
 	if o.keyType.Kind() == reflect.String {
 		return reflect.ValueOf(name).Convert(o.keyType)
 	}
+	switch o.keyType.Kind() {
+	case reflect.Int, reflect.Int8, reflect.Int16, reflect.Int32, reflect.Int64,
+		reflect.Uint, reflect.Uint8, reflect.Uint16, reflect.Uint32, reflect.Uint64, reflect.Uintptr,
+		reflect.Float32, reflect.Float64:
+		// Only the canonical string of a number names an element of a map with numeric keys: "foo" (or "toString")
+		// is not key 0, "01" is not key 1.
+		v := newStringValue(name)
+		if !v.ToNumber().toString().SameAs(v) {
+			return reflect.Value{}
+		}
+	}
 	return o.toKey(newStringValue(name), throw)
 }
 
